@@ -177,6 +177,12 @@ def monitor(script, res):
             out.append(("sleeper-cancelled-by-nobody", "config_sleep returns normally", f"CancelledError at {fin[1]} ms"))
             continue
         woke = fin[1] if fin is not None else None
+        if fin is not None and fin[0] == "wake" and woke < start + delay:
+            j = ev.index(fin)
+            if not any(f[0] == "mode" and f[3] == "ok" for f in ev[i + 1:j]):
+                out.append(("undersleep:no-switch", f"sleeper {sid} (start {start} ms, delay {delay} ms) sleeps until {start + delay} ms: no switch happened",
+                            f"config_sleep returned at {woke} ms"))
+                continue
         if bound <= res["end_ms"] and (woke is None or woke > bound):
             kind = {"switch": "missed-switch", "cancel": "late-cancel", "timeout": "late-timeout"}[why]
             out.append((f"oversleep:{kind}", f"sleeper {sid} (start {start} ms, delay {delay} ms) awake by {bound} ms ({why})",
@@ -398,21 +404,28 @@ def _real_device(kind, tok):
 
 
 def facade_mode(pumps, blowers):
-    """run the REAL GeckoAsyncFacade._on_config_device_change over real device objects; '1' active, '0' idle, else what happened"""
+    """run the REAL GeckoAsyncFacade._on_config_device_change over real device objects and observe the mode it asks
+    set_config_mode for (the call is passed through to the real set_config_mode): '1' active, '0' idle, else what happened"""
     async def body(loop):
         import geckolib.config as cfg
-        from geckolib.automation.async_facade import GeckoAsyncFacade
+        import geckolib.automation.async_facade as af
         await cfg.config_sleep(0)
-        fac = object.__new__(GeckoAsyncFacade)
+        fac = object.__new__(af.GeckoAsyncFacade)
         fac._pumps = [_real_device("p", t) for t in pumps]
         fac._blowers = [_real_device("b", t) for t in blowers]
-        fac._on_config_device_change()
-        got = _members(cfg)
-        if got == _table_of(True):
-            return "1"
-        if got == _table_of(False):
-            return "0"
-        return f"mixed {got}"
+        calls, orig = [], af.set_config_mode
+
+        def spy(active):
+            calls.append(active)
+            return orig(active)
+        af.set_config_mode = spy
+        try:
+            fac._on_config_device_change()
+        finally:
+            af.set_config_mode = orig
+        if len(calls) != 1 or not isinstance(calls[0], bool):
+            return f"set_config_mode calls: {calls!r}"
+        return "1" if calls[0] else "0"
     try:
         return qloop.run_q(body)
     except Exception as e:  # noqa
@@ -474,10 +487,14 @@ def run(ctx):
     jit = []
     for fam, script in scripts(ctx, lambda s: {"seed": s, "shuffle": True, "jitter_ms": 30})[:: (2 if ctx.quick else 1)]:
         jit.append((fam, script, run_script(script)))
+    seen = set()
     for fam, script, res in exact + jit:
         ctx.count("evaluations")
         ctx.hist("script_families", fam + ("+jitter" if script["sched"]["jitter_ms"] else ""))
         for key, want, got in monitor(script, res):
+            if key in seen:
+                continue
+            seen.add(key)
             small = shrink(script, key)
             r2 = run_script(small)
             w2 = [(k, w, g) for k, w, g in monitor(small, r2) if k == key]
